@@ -68,3 +68,9 @@ META["C19"] = {
     "note": "Trusts connect-go's limit enforcement as pinned; compressible padding under compression; response sizes unreachable because of nested length prefixes are skipped.",
     "technique": "property-based testing (rapid) with brute-force reachability oracle + end-to-end boundary-value generation",
 }
+
+META["C12"] = {
+    "text": "The reference server's request checks are run over the complete expected x actual matrix (432 x 432 setups, enumerated) with synthesised well-formed requests and a recording printer: the set of aspects named in feedback must equal the set of differing aspects; repeated requests, request trailers and a missing test name are generated on top. Timeout headers are enumerated over a hostile alphabet and all digit-count boundaries and compared with the protocol grammars and a big-integer duration model; a black-box unit repeats a sample over real HTTP/1.1 and h2c sockets reading the server's stderr and the echoed timeout. Exploration with exhaustively enumerated sub-spaces.",
+    "note": "Requests are synthesised with httptest (ProtoMajor/TLS state set directly) for the matrix; TLS and HTTP/3 transports themselves are exercised by C01, not here.",
+    "technique": "bounded-exhaustive enumeration + property-based testing (rapid) against a reference grammar/model, black-box sample over real sockets",
+}
